@@ -18,19 +18,27 @@ import (
 
 type script struct {
 	Family  string
-	Tail    int   // entries appended by the isolated leader that reach nobody
-	Writes  int   // writes acknowledged by the new leader meanwhile
-	Restart []int // nodes killed and restarted after the partition healed (0-based)
-	Remove  int   // membership family: node id removed (1-based), 0 = none
-	Upper   bool  // membership family: the command is spelled RCONF (replicated) instead of rconf (local shortcut)
-	AdminAt int   // node (0-based) whose connection carries RCONF
-	When    int   // membership family: number of writes acknowledged before the removal
+	Tail    int      // entries appended by the isolated leader that reach nobody
+	Writes  int      // writes acknowledged by the new leader meanwhile
+	Restart []int    // nodes killed and restarted after the partition healed (0-based)
+	Remove  int      // membership family: node id removed (1-based), 0 = none
+	Upper   bool     // membership family: the command is spelled RCONF (replicated) instead of rconf (local shortcut)
+	AdminAt int      // node (0-based) whose connection carries RCONF
+	When    int      // membership family: number of writes acknowledged before the removal
+	Start   string   // add-node family: the new node starts "before" or "after" the change is committed
+	Args    []string // rconf-malformed family: the command
 }
 
 func (sc script) name() string {
 	switch sc.Family {
 	case "stale-leader-tail", "follower-lag":
 		return fmt.Sprintf("%s(tail=%d,writes=%d,restart=%v)", sc.Family, sc.Tail, sc.Writes, sc.Restart)
+	}
+	if sc.Family == "add-node" {
+		return fmt.Sprintf("%s(admin@n%d,after=%d writes,start=%s,restart=%v)", sc.Family, sc.AdminAt+1, sc.When, sc.Start, sc.Restart)
+	}
+	if sc.Family == "rconf-malformed" {
+		return fmt.Sprintf("%s(%q via n%d)", sc.Family, sc.Args, sc.AdminAt+1)
 	}
 	return fmt.Sprintf("%s(remove=n%d,admin@n%d,after=%d writes,upper=%v)", sc.Family, sc.Remove, sc.AdminAt+1, sc.When, sc.Upper)
 }
@@ -63,6 +71,21 @@ func scripts(tier string) []script {
 				}
 			}
 		}
+	}
+	for admin := 0; admin < 3; admin++ {
+		for when := 0; when <= 1; when++ {
+			for _, st := range []string{"after", "before"} {
+				for _, r := range [][]int{nil, {3}, {0, 1, 2, 3}} {
+					if tier != "thorough" && (admin == 2 || (when == 0 && len(r) == 1)) {
+						continue
+					}
+					out = append(out, script{Family: "add-node", AdminAt: admin, When: when, Start: st, Restart: r})
+				}
+			}
+		}
+	}
+	for _, a := range [][]string{{"rconf", "add", "4"}, {"rconf", "add"}, {"rconf"}, {"rconf", "delete"}, {"rconf", "delete", "x"}, {"rconf", "add", "x", "u"}, {"rconf", "frob", "1"}, {"rconf", "update", "1"}, {"rconf", "delete", "0"}, {"rconf", "delete", "9"}, {"rconf", "add", "0", "u"}} {
+		out = append(out, script{Family: "rconf-malformed", Args: a, AdminAt: 1})
 	}
 	return out
 }
@@ -141,6 +164,46 @@ func runScript(sc script) runResult {
 		ev("HEAL")
 		s.tick(0)
 		s.stabilise(600)
+	case "rconf-malformed":
+		write(0, "k0", "before")
+		s.stabilise(400)
+		ci := s.addClient(sc.AdminAt, [][]string{sc.Args})
+		s.submitAdmin(ci)
+		ev("RCONF(%q via n%d)", sc.Args, sc.AdminAt+1)
+		s.stabilise(600)
+		s.takePanics()
+		if s.ok() {
+			s.electIfNone()
+			write(0, "k1", "after")
+			s.stabilise(400)
+		}
+	case "add-node":
+		for k := 0; k < sc.When && s.ok(); k++ {
+			write(k%3, fmt.Sprintf("k%d", k), "before")
+			s.stabilise(400)
+		}
+		if sc.Start == "before" {
+			s.addNode()
+			ev("START(n4 --join)")
+		}
+		ci := s.addClient(sc.AdminAt, [][]string{{"rconf", "add", "4", "http://127.0.0.1:20003"}})
+		s.submitAdmin(ci)
+		ev("RCONF-ADD(n4 via n%d)", sc.AdminAt+1)
+		s.stabilise(600)
+		if sc.Start == "after" && s.ok() {
+			s.addNode()
+			ev("START(n4 --join)")
+		}
+		for round := 0; round < 3 && s.ok(); round++ {
+			if l := s.leader(); l >= 0 {
+				s.tick(l) // heartbeat: the leader learns that node 4 answers and replicates to it
+				s.stabilise(600)
+			}
+		}
+		for k := 0; k < 2 && s.ok(); k++ {
+			write(k, fmt.Sprintf("k%d", k), "after")
+			s.stabilise(400)
+		}
 	case "remove-node":
 		for k := 0; k < sc.When && s.ok(); k++ {
 			write(k%3, fmt.Sprintf("k%d", k), "before")
